@@ -4,7 +4,10 @@
               format   definition-level x descriptor-level format designations
               reqs     <=3 descriptors in groups x every submission requirement shape (flat, nested one and two levels)
                        x wallets of <=4 credentials (match / shared match / decoy, both formats)
-              forge    small definitions x wallets x every envelope shape x every mutation of the built submission *)
+              forge    small definitions x wallets x every envelope shape x every mutation of the built submission
+              paths    1 descriptor whose field lists SEVERAL paths (f|g, g|f, h|g|f, type|g) x filter kinds x optional
+                       x credentials carrying every pair of values at f and g: the first, a later, several or none of
+                       the paths select a value, and the value passes or fails the filter *)
 EXTENDS Pex, Json
 
 CONSTANT Tier       \* "quick" | "thorough": size of the reqs family
@@ -25,7 +28,8 @@ PatTable == {[p |-> p, s |-> s, m |-> MCPatRes(p, s).m, cap |-> MCPatRes(p, s).c
 \* ------------------------------------------------------------ builders
 Cred(nm, f, ty, vf, vg) == [name |-> nm, cid |-> nm, fmt |-> f, typ |-> ty, f |-> vf, g |-> vg]
 Flt(t, c, e, p) == [type |-> t, const |-> c, enum |-> e, pat |-> p]
-Fld(p, fl, o, i) == [path |-> p, flt |-> fl, opt |-> o, id |-> i]
+FldP(ps, fl, o, i) == [path |-> ps, flt |-> fl, opt |-> o, id |-> i]      \* ps: the field's paths, in order
+Fld(p, fl, o, i) == FldP(<<p>>, fl, o, i)
 Desc(i, fs, f, g) == [id |-> i, fields |-> fs, fmt |-> f, grp |-> g]
 Def(f, ds, rs) == [fmt |-> f, ds |-> ds, reqs |-> rs]
 Leaf_(rule, c, mn, mx, g) == [rule |-> rule, count |-> c, min |-> mn, max |-> mx, from |-> g, nested |-> <<>>]
@@ -77,6 +81,24 @@ C2s == [Cred("c2s", "jwt", "BetaCredential", S("r2"), Absent) EXCEPT !.cid = "c1
 Cxs == [Cred("cxs", "ldp", "AlphaCredential", S("zzz"), Absent) EXCEPT !.cid = "c1"]
 WalletsFormat == {<<C1>>, <<C1j>>, <<C1, C1j>>, <<C1j, C1>>}
 
+\* ------------------------------------------------------------ family: paths
+\* the claim may live at more than one place of ONE credential (subject's own identifier vs the organisation's, ...)
+PathLists == IF Tier = "quick" THEN {<<"f", "g">>, <<"g", "f">>, <<"type", "g">>}
+             ELSE {<<"f", "g">>, <<"g", "f">>, <<"h", "g", "f">>, <<"type", "g">>, <<"f", "type">>}
+FiltersP == {<<Flt("string", <<"nurse">>, <<>>, <<>>)>>, <<Flt("string", <<>>, <<>>, <<"^(nurse)-.*$">>)>>, <<TypeOnly("number")>>,
+             <<Flt("string", <<>>, <<>>, <<"^nur">>)>>, <<>>}
+            \cup (IF Tier = "quick" THEN {} ELSE {<<Flt("string", <<>>, <<"nurse", "doctor">>, <<>>)>>, <<Flt("string", <<>>, <<>>, <<"^(nur)(se)$">>)>>,
+                                                  <<TypeOnly("string")>>})
+DefsPaths == {Def1(<<FldP(ps, fl, o, "d1_f")>>) : ps \in PathLists, fl \in FiltersP, o \in BOOLEAN}
+PVals == << S("nurse"), S("doctor"), S("nurse-x"), N(7), Absent >>
+CredP(i, j, f) == Cred("p" \o ToString(i) \o ToString(j) \o f, f, "AlphaCredential", PVals[i], PVals[j])
+PIdx == 1..Len(PVals)
+WalletsPaths ==
+    {<<CredP(i, j, "ldp")>> : i \in PIdx, j \in PIdx}
+    \cup {<<CredP(x[1], x[2], "jwt")>> : x \in (IF Tier = "quick" THEN {<<2, 1>>, <<1, 2>>, <<4, 3>>, <<2, 5>>, <<5, 4>>} ELSE PIdx \X PIdx)}
+    \* a near miss in front of the credential that satisfies the field through its second path
+    \cup {<<CredP(2, 2, "ldp"), CredP(2, 1, "ldp")>>, <<CredP(2, 3, "ldp"), CredP(4, 2, "ldp"), CredP(1, 2, "ldp")>>, <<CredP(2, 4, "jwt"), CredP(5, 5, "ldp")>>}
+
 \* ------------------------------------------------------------ family: reqs
 D(i, g) == Desc("d" \o ToString(i), ConstF("r" \o ToString(i), "d" \o ToString(i) \o "_f"), "none", g)
 Ds(gs) == [i \in 1..Len(gs) |-> D(i, gs[i])]
@@ -124,8 +146,8 @@ WalletsForge == {<<C1>>, <<C1j>>, <<C1, C2>>, <<C2, C1>>, <<C12>>, <<C1, C2, C3>
                  <<C1, C2s>>, <<C2s, C1, C3>>, <<Cxs, C1>>}
 
 \* family mini: one definition, one wallet -- vacuity guard (state graph dumped, every action must label an edge)
-MCDefsOf(f) == CASE f = "mini" -> {Def("none", Ds(<<{}, {}>>), <<>>)} [] f = "filters" -> DefsFilters [] f = "format" -> DefsFormat [] f = "reqs" -> DefsReqs [] f = "forge" -> DefsForge
-MCWalletsOf(f) == CASE f = "mini" -> {<<C1, C2>>} [] f = "filters" -> WalletsFilters [] f = "format" -> WalletsFormat [] f = "reqs" -> WalletsReqs [] f = "forge" -> WalletsForge
+MCDefsOf(f) == CASE f = "mini" -> {Def("none", Ds(<<{}, {}>>), <<>>)} [] f = "filters" -> DefsFilters [] f = "format" -> DefsFormat [] f = "reqs" -> DefsReqs [] f = "forge" -> DefsForge [] f = "paths" -> DefsPaths
+MCWalletsOf(f) == CASE f = "mini" -> {<<C1, C2>>} [] f = "filters" -> WalletsFilters [] f = "format" -> WalletsFormat [] f = "reqs" -> WalletsReqs [] f = "forge" -> WalletsForge [] f = "paths" -> WalletsPaths
 AllShapes == {"ldp", "jwt", "ldp-arr", "jwt-arr", "ldp-arr2", "jwt-arr2"}
 MCShapesOf(f) == IF f = "forge" THEN AllShapes ELSE IF f = "mini" THEN {"ldp", "jwt-arr2"} ELSE {"ldp"}
 AllMutKinds == {"drop", "empty", "permute", "forge-path", "subject", "bad-path", "dup-shadow", "dup-trail", "dup-same", "surplus",
@@ -136,9 +158,9 @@ MCEnvKindsOf(f) == IF f \in {"forge", "mini"} THEN AllEnvKinds ELSE {"plain"}
 MCTamperMutKinds == {"forge-path", "permute", "dup-shadow", "dup-trail", "drop", "surplus"}
 AllIncKinds == {"empty-vp", "empty-vp-jwt", "decoy-vp", "no-vp", "partial-vp"}
 \* the big family presents the empty presentation in one format only (budget)
-MCIncKindsOf(f) == IF f = "reqs" THEN AllIncKinds \ {"empty-vp-jwt"} ELSE AllIncKinds
+MCIncKindsOf(f) == IF f = "reqs" THEN AllIncKinds \ {"empty-vp-jwt"} ELSE IF f = "paths" THEN {"empty-vp", "decoy-vp"} ELSE AllIncKinds
 \* incomplete envelopes explored as STATES by the model checker (the printed cases always carry MCIncKindsOf)
-MCIncKindsModel(f) == IF f = "reqs" THEN {"empty-vp", "partial-vp"} ELSE AllIncKinds
+MCIncKindsModel(f) == IF f = "reqs" THEN {"empty-vp", "partial-vp"} ELSE IF f = "paths" THEN {"empty-vp", "decoy-vp"} ELSE AllIncKinds
 \* hostile envelopes are explored in these shapes
 MCTamperShapes == {"ldp", "jwt", "jwt-arr"}
 \* envelope shapes the driver presents the wallet's own submission in
@@ -188,6 +210,7 @@ CaseRec ==
                                          CodeSat(def, def.ds[x[1]], wallet[x[2]]) /\ ~RefSat(def, def.ds[x[1]], wallet[x[2]])}},
               valid |-> IdSet(ValidSets(def)),
               complete |-> CompleteExists(def, wallet),
+              mustfind |-> MustFind(def, wallet),
               pred |-> PredOf(out),
               class |-> Class,
               extract |-> {[d |-> def.ds[x[1]].id, c |-> wallet[x[2]].name, fid |-> def.ds[x[1]].fields[x[3]].id,
